@@ -20,7 +20,10 @@ PROP = {
             "object/tag items are literal bytes as spelled and are compared modulo re-spelling; in 2000 (12000) further cases the "
             "strings {{ }} {% %} placed in text survive verbatim under fully custom d (default-delims-are-text); five fixed sequences "
             "of several Engine.Delims calls must render as an engine configured by the last call alone (empty-string-selects-default; "
-            "shard 0, real engine only, the model has no history of configuration calls).",
+            "shard 0, real engine only, the model has no history of configuration calls). "
+            "rex (added to C05 and C19 by EXTRA_STREAMS of checklib/props/__init__.py; harness/stream_rex.go): generated regular expressions printed in Go "
+            "syntax, and the pattern text parser.formTokenMatcher builds for generated delimiter lists (read through the verif hook parser.VerifTokenMatcher), are "
+            "compiled with regexp.Compile and run on generated inputs; pattern text and FindStringSubmatchIndex of the first match are compared with the model's printer and matcher.",
     "trusted_base": COMMON_TB + ["the harness's own spell/unspell/Clean (harness/tokitems.go) define which sources count as 'the same template'"],
     "assumptions": ["harness Clean(d, items) (harness/tokitems.go; decides which templates the delims stream keeps): every occurrence "
                     "of a delimiter of d in the spelled source lies inside a delimiter that spell "
@@ -45,8 +48,8 @@ TEXT = {
     "text": ('Main theorem, over ALL good delimiter sets and ALL item lists that are Clean for them (Proofs.C19E2E): a template is a list of abstract items '
               '(text / object / tag with hyphens and inner white space, Proofs.E2ESpell), `spell d items` writes it with the '
               'delimiters d and `tokensOf d items line` is the token list it denotes. For every delimiter quadruple satisfying '
-              'GoodDelims (non-empty strings of ASCII punctuation other than - and _, neither opening delimiter a prefix of the '
-              'other) and every item list satisfying the decidable predicate Clean d, the tokenizer - token pattern, '
+              'GoodDelims (four non-empty strings of ASCII bytes that are neither white space nor word characters nor `-` - punctuation other than - and _ -, '
+              'neither OPENING delimiter a prefix of the other; nothing is required of the closing delimiters against each other) and every item list satisfying the decidable predicate Clean d, the tokenizer - token pattern, '
               'leftmost-first backtracking matcher with its lazy loops, the lexical skip of raw/comment bodies, hyphen detection, '
               'line counting - returns exactly '
               '`tokensOf d items line` on `spell d items` (scan_spell; by induction over the matcher: objRe_m, tagRe_m, '
@@ -59,7 +62,7 @@ TEXT = {
               'compiled templates are EQUAL (spellings_compile_equal), so `run` of an engine with custom delimiters on the '
               'custom spelling is what the SAME engine configuration returns for the template compiled from the default spelling '
               'with the default delimiters (run_custom_spelling_eq_default). '
-              'Since the repair fixes/raw-comment-lexical the body of a raw or comment block is one text token - literal bytes, the '
+              'Since the repair fixes/raw-comment-lexical.patch (/repo e30377e) the body of a raw or comment block is one text token - literal bytes, the '
               'same under every delimiter set (Clean admits any body bytes in which no end tag of the block begins) - and the '
               'equivalence covers raw blocks; excluded by RawClosed: a raw tag with no lexical end tag ahead that is not followed, '
               'at once or after one text, by a tag named endraw - an unterminated raw block (equivalence not proved) or a block '
